@@ -149,6 +149,7 @@ class MD6(object):
             l += 1
             if l==self.L+1: return self.SEQ(M,bitlen)
             M = self.PAR(l,M,bitlen)
+            bitlen = None
             if len(M)==128:
                 h = Bits(M)>>(1024-self.size)
                 h.size = self.size
